@@ -49,7 +49,8 @@ def encode_decode(g, top, real, ref, triples, context):
     except Exception as exc:
         raise Violation(f'decode(encode(g)) raised {type(exc).__name__}: '
                         f'{exc}', context, s)
-    same_content(triples, top, g2, ref, (context, s))
+    same_content(triples, top if top is not None else g.top, g2, ref,
+                 (context, s))
     return s
 
 
